@@ -515,6 +515,7 @@ def run_check(prop, tier, master, only_index=None):
     fs_totals = {}
     env_totals = {}
     kernel_totals = {}
+    labels_seen = {}
     digests = set()
     nontriv = set()
     samples = []
@@ -553,6 +554,8 @@ def run_check(prop, tier, master, only_index=None):
             fam = scn.get("family", "all")
             families[fam] = families.get(fam, 0) + 1
             for o in outs:
+                for lb in o.get("labels", []) + [x for e in o.get("events", []) for x in e.get("labels", [])]:
+                    labels_seen[lb] = labels_seen.get(lb, 0) + 1
                 add_counters(totals, o.get("counters"))
                 add_counters(fs_totals, o.get("fs"))
                 add_counters(env_totals, o.get("envsim"))
@@ -717,6 +720,7 @@ def run_check(prop, tier, master, only_index=None):
             "clock_and_random_seam": dict(env_totals, note="simulated clock / urandom / random.seed per world; reads by the code under test (0 = the tree consults neither, the seam is inert)"),
             "faults_injected": fault_summary(prop, totals, fs_totals, hashseeds, enum_seeds),
             "kernel": dict(kernel_totals, note="tier 2: threads started by the code under test become kernel tasks; lib_threads_started = 0 means the tree starts none and the shim is inert"),
+            "node_labels_reached": {"distinct": len(labels_seen), "decoder_labels": sorted(k for k in labels_seen if not k.startswith("api."))[:160]},
             "distinct_interleavings": len(interleavings),
             "distinct_hash_seeds": len(hashseeds),
             "distinct_enum_seeds": len(enum_seeds),
